@@ -153,6 +153,7 @@ func cmdCheck(args []string) int {
 	only := fs.String("only", "", "restrict to functions/lemmas whose name contains this")
 	keep := fs.Bool("keep", false, "keep SMT queries")
 	noEvidence := fs.Bool("no-evidence", false, "do not write the evidence file")
+	stress := fs.Bool("stress", false, "run every SMT query on every solver with several seeds and report fragile ones")
 	if len(args) < 1 {
 		fmt.Fprintln(os.Stderr, "usage: vgo check <PROP> [flags]")
 		return 2
@@ -300,6 +301,9 @@ func cmdCheck(args []string) int {
 		}()
 	}
 	wg.Wait()
+	if *stress {
+		stressQueries(jobsQueries(len(jobs), func(i int) (*Oblig, *Query) { return jobs[i].o, jobs[i].q }), timeoutS)
+	}
 	solveS := time.Since(start).Seconds() - loadS - genS
 
 	// ---- aggregate per clause ----
@@ -802,4 +806,84 @@ func solveSplit(q *Query, timeoutS int) SolverResult {
 		}
 	}
 	return total
+}
+
+type oq struct {
+	o *Oblig
+	q *Query
+}
+
+func jobsQueries(n int, get func(int) (*Oblig, *Query)) []oq {
+	var out []oq
+	for i := 0; i < n; i++ {
+		o, q := get(i)
+		out = append(out, oq{o, q})
+	}
+	return out
+}
+
+// stressQueries reports, per proof query, how many (solver, seed) combinations decide it.
+func stressQueries(js []oq, timeoutS int) {
+	var wg sync.WaitGroup
+	sem := make(chan struct{}, 5)
+	var mu sync.Mutex
+	type row struct {
+		name string
+		ok   int
+		tot  int
+		det  string
+	}
+	var rows []row
+	for _, j := range js {
+		if j.o.Cover || j.o.Res == nil || j.o.Res.Verdict != "unsat" {
+			continue
+		}
+		j := j
+		wg.Add(1)
+		sem <- struct{}{}
+		go func() {
+			defer wg.Done()
+			defer func() { <-sem }()
+			text := j.q.SMT(false)
+			queryMu.Lock()
+			queryCount++
+			id := queryCount
+			queryMu.Unlock()
+			file := filepath.Join(scratchDir, fmt.Sprintf("stress%06d.smt2", id))
+			os.WriteFile(file, []byte(text), 0o644)
+			defer os.Remove(file)
+			ok, tot := 0, 0
+			det := ""
+			for _, sp := range solvers {
+				for seed := 1; seed <= 3; seed++ {
+					saved := verifSeed
+					_ = saved
+					args := sp.args(file, timeoutS, seed)
+					cmd := exec.Command(args[0], args[1:]...)
+					out, _ := cmd.CombinedOutput()
+					first := strings.TrimSpace(strings.SplitN(strings.TrimSpace(string(out)), "\n", 2)[0])
+					tot++
+					if first == "unsat" {
+						ok++
+						det += "+"
+					} else {
+						det += "-"
+					}
+				}
+				det += " "
+			}
+			mu.Lock()
+			rows = append(rows, row{j.q.Name, ok, tot, det})
+			mu.Unlock()
+		}()
+	}
+	wg.Wait()
+	sort.Slice(rows, func(a, b int) bool { return rows[a].ok < rows[b].ok })
+	fmt.Fprintln(os.Stderr, "stress: (z3-new z3 cvc5) x seeds 1..3")
+	for _, r := range rows {
+		if r.ok < 4 {
+			fmt.Fprintf(os.Stderr, "  FRAGILE %d/%d [%s] %s\n", r.ok, r.tot, r.det, r.name)
+		}
+	}
+	fmt.Fprintf(os.Stderr, "stress: %d queries checked\n", len(rows))
 }
